@@ -68,7 +68,7 @@ var c17Paths = []string{
 func H_C17_paths() {
 	root, present := c17Build()
 	p := ndChoice("path", len(c17Paths))
-	form := ndChoice("form", 3)
+	form := ndChoice("form", 6)
 	path := c17Paths[p]
 	var src string
 	switch form {
@@ -76,6 +76,12 @@ func H_C17_paths() {
 		src = `{{ isset(` + path + `) }}`
 	case 1:
 		src = `{{ ` + path + ` | isset }}`
+	case 3:
+		src = `{{ ` + path + ` | isset(_) }}`
+	case 4:
+		src = `{{ ` + path + ` | isset(one, _) }}`
+	case 5:
+		src = `{{ ` + path + ` | isset: one }}`
 	default:
 		src = `{{ isset(one, ` + path + `) }}`
 	}
@@ -88,7 +94,7 @@ func H_C17_paths() {
 	}
 	vars.Set("one", 1)
 	out, err := hxExec(set, "/m.jet", vars, nil)
-	if form == 1 {
+	if form == 1 || form >= 3 {
 		// the piped form evaluates its operand before isset sees it: an operand that cannot
 		// be evaluated is an ordinary evaluation error there, so only valid operands are claimed
 		if err != nil {
@@ -152,7 +158,15 @@ func H_C17_commaOk() {
 		}
 		vars.Set("m", m)
 	}
-	set := hxSet(nil, "/m.jet", `{{ v, ok := m["k"] }}{{ ok }}{{ if ok }}!{{ end }}`)
+	forms := []string{
+		`{{ v, ok := m["k"] }}{{ ok }}{{ if ok }}!{{ end }}`,
+		`{{ _, ok := m["k"] }}{{ ok }}{{ if ok }}!{{ end }}`,
+		`{{ v := 0 }}{{ ok := "stale" }}{{ v, ok = m["k"] }}{{ ok }}{{ if ok }}!{{ end }}`,
+		`{{ ok := "stale" }}{{ _, ok = m["k"] }}{{ ok }}{{ if ok }}!{{ end }}`,
+		`{{ if _, ok := m["k"]; ok }}true!{{ else }}false{{ end }}`,
+		`{{ v, _ := m["k"] }}{{ isset(m.k) || !isset(m.k) ? "" : "" }}` + `{{ w, ok := m["k"] }}{{ ok }}{{ if ok }}!{{ end }}`,
+	}
+	set := hxSet(nil, "/m.jet", forms[ndChoice("form", len(forms))])
 	out, err := hxExec(set, "/m.jet", vars, nil)
 	vfAssert(err == nil, "renders")
 	if has {
